@@ -344,23 +344,17 @@ func (v *Value) Contains(other *Value) bool {
 		if !other.val.IsValid() {
 			return false
 		}
-		// Ensure that map key type is equal to other's type.
-		if baseValue.Type().Key() != other.val.Type() {
+		// The same text or integer under another Go type is the key too
+		// (see mapKey); what cannot be a key of this map is not in it.
+		resolved := other.getResolvedValue()
+		if !resolved.IsValid() {
+			return false // a nil pointer
+		}
+		key, ok := mapKey(resolved, baseValue.Type().Key())
+		if !ok {
 			return false
 		}
-
-		var mapValue reflect.Value
-		switch other.Interface().(type) {
-		case int:
-			mapValue = baseValue.MapIndex(other.getResolvedValue())
-		case string:
-			mapValue = baseValue.MapIndex(other.getResolvedValue())
-		default:
-			logf("Value.Contains() does not support lookup type '%s'\n", other.getResolvedValue().Kind().String())
-			return false
-		}
-
-		return mapValue.IsValid()
+		return baseValue.MapIndex(key).IsValid()
 	case reflect.String:
 		return strings.Contains(v.getResolvedValue().String(), other.String())
 
